@@ -138,6 +138,18 @@ CHECKS["C03"] = dict(
          "others_untouched; key lemma forward_undo: a forward-order undo that succeeds at every step restores). " + RTR_TIE,
     note=RTR_NOTE, technique="Lean 4 refinement/invariant proofs over an executable model of rtr_sync + differential correspondence + trace oracle",
     design="§5 C03")
+CHECKS["C04"] = dict(
+    text="PARTIAL (memory safety is not a theorem). Proved on the model: the outcome of tr_recv_all, rtr_receive_pdu, rtr_sync and rtr_wait_for_sync depends only "
+         "on the byte stream and the placement of faults, not on its segmentation into reads (recvAll_chunking, receivePdu_chunk_independent, syncG_chunk_independent, "
+         "waitForSync_chunk_independent; arbitrary tapes incl. faults); the size check accepts exactly the ten known types with their exact lengths incl. the nested "
+         "lengths of an Error Report (checkSize_spec); a length below 8, above RTR_MAX_PDU_LEN or inconsistent with the type, and unknown types, make rtr_receive_pdu fail "
+         "and nothing of the PDU is handed on (bad_length_rejected, receivePdu_ok_checked); every receive consumes input or ends (recv_terminates_consumes), which with "
+         "C08's ranking argument bounds every call. NOT proved: absence of invalid memory accesses / assertion failures in the C code - decided by running the real "
+         "receive path under ASan+UBSan with assertions on, and again under MemorySanitizer, on every generated stream (hostile field values incl. every 32-bit "
+         "wrap-around candidate of the nested lengths, truncations, oversizes, garbage), each in several segmentations, with the same outcome required. " + RTR_TIE,
+    note=RTR_NOTE + " Unaligned accesses through the packed PDU structs are excluded from UBSan for this harness (see DESIGN.md, false alarms).",
+    technique="Lean 4 proofs of chunk-independence and of the size check over the receive-path model + differential correspondence under ASan/UBSan/MSan with wrap-around-aware stream generator",
+    design="§5 C04")
 CHECKS["C05"] = dict(
     text="Proof: the query the state machine sends is a function of the session part (Reset Query iff a new session is requested, else Serial Query with "
          "the stored session and serial: connecting_query / reset_query); a successful synchronisation sets it to the session and serial of its End of Data, "
@@ -154,6 +166,17 @@ CHECKS["C07"] = dict(
          " The FSM oracle checks on the real thread: tables at every open(), first query after an expired open(), tables after rtr_stop, other sockets' records.",
     note=RTR_NOTE, technique="Lean 4 invariant over all histories of the state-machine model (clock monotone) + differential correspondence with fake clock + trace oracle",
     design="§5 C07")
+CHECKS["C08"] = dict(
+    text="PARTIAL. Proved (progress half): every iteration of the state machine lets the clock advance, or consumes part of the scripted environment, or moves "
+         "down a finite rank of states (no_zero_time_cycle), so at most 4 consecutive iterations take no time and consume nothing (bounded_zero_time_steps, "
+         "steps_bounded); the clock is monotone; error states sleep exactly retry_interval and are not absorbing: they lead to CONNECTING or RESET with a Reset Query "
+         "pending (retry_sleep_advances, error_states_reconnect); the limit retry_interval=0 (only reachable in interval mode ACCEPT_ANY) is stated as a theorem "
+         "(retry_zero_cycle). NOT proved: the convergence clause - the model's environment is a fixed script, not a reactive cache. It is decided by correspondence: "
+         "fault schedules (every transport call site x fault kind, singly and combined, generated reactively from the model's own queries) followed by a correct "
+         "simulated cache; the oracle checks on the real thread that the run ends ESTABLISHED with exactly the cache's records within refresh+expire+k*retry of "
+         "protocol time and that no state cycle repeats without the fake clock advancing. " + RTR_TIE,
+    note=RTR_NOTE, technique="Lean 4 ranking-function proof over the state-machine model (progress) + differential correspondence with reactive simulated cache and fake clock (convergence)",
+    design="§5 C08")
 CHECKS["C13"] = dict(
     text="Proof: over any run (any reconnects, any script) the version never rises and stays supported (version_monotone); it changes only in the three "
          "legitimate places - first PDU of a connection with a lower supported version, Unsupported-Version error report with a lower version (then FAST_RECONNECT), "
@@ -161,6 +184,20 @@ CHECKS["C13"] = dict(
          "a mismatching header is answered with code 8 and not read further; End of Data formats per version (eod_format). " + RTR_TIE,
     note=RTR_NOTE, technique="Lean 4 monotonicity/invariant proofs over the receive path and the state-machine model + differential correspondence + trace oracle",
     design="§5 C13")
+
+CHECKS["C14"] = dict(
+    text="Proof: Serial Query, Reset Query and Error Report as built by the client are complete PDUs of the socket's version whose length field equals their length "
+         "and is within RTR_MAX_PDU_LEN, and pass the client's own size check (serialQuery_wf, resetQuery_wf, errorPdu_wf, *_fields: code, encapsulated length and bytes, "
+         "text length and bytes, total length); tr_send_all hands exactly those bytes to the transport however the writes are split, and a prefix if a write fails "
+         "(sendAll_chunking, sendAll_prefix); nothing is sent in reply to an Error Report (no_reply_to_error); the in-place byte-order conversions are inverse to each "
+         "other for every buffer, so the echoed copy (header only or whole PDU) is byte-exact as received (conv_roundtrip, echo_header_exact), stay inside a checked PDU "
+         "(conv_in_bounds), and every field the protocol model reads big-endian is the field the C code reads from the converted struct (Conv.toHost_reads). "
+         "Which code answers which violation and that the encapsulated bytes are a prefix of the offending PDU is part of the protocol model and checked on the "
+         "implementation by correspondence + the sent-PDU oracle (each Error Report matched against the bytes consumed); uninitialised bytes are found by a "
+         "MemorySanitizer build of the same harness whose transport formats every byte sent. Second tie: tools/pduconvcheck.py runs the real static conversion "
+         "functions of packets.c against RtrModel.PduConv. " + RTR_TIE,
+    note=RTR_NOTE, technique="Lean 4 proofs over the PDU builders, tr_send_all and the byte-order conversions + two differential correspondences (protocol trace, conversion functions) + MSan",
+    design="§5 C14")
 
 NOT_YET = {}
 
